@@ -5,12 +5,44 @@ with that set (labels of function/constant/variant/local items; built-in constru
 labels, and the replace range must be exactly the identifier being typed.  The module accessors offered must be
 exactly VisibleModules (the last path segment of every import, the alias ONLY for `import .. as q`; up to two imports of
 m2 and sub/m2), and after `acc.` exactly the public functions and constructors of the module that accessor stands for
-(sub/m2 exports one function more than m2).  Workspace: two local packages (app -> lib), one in four a single package."""
+(sub/m2 exports one function more than m2).  Fields.tla: for every family of variants (labels x / y, types Int / Float,
+positional fields, up to three variants) the completion after `value.` offers exactly the fields every variant has with
+one type.  Workspace: two local packages (app -> lib), one in four a single package."""
+import json, os
+import vlib
 from checks import scope_common
+
+
+def run_fields(out):
+    """Fields.tla: every family of variants within the bounds with the labels a value of the type has; replayed into
+    the completion after `value.`"""
+    r = vlib.tlc("Fields", "Fields.cfg", workers=1, timeout=900)
+    vlib.require_ok(r, "Fields")
+    out.add_tlc(r, "GEN Fields.tla (every family of variants, common fields)")
+    d = vlib.workdir("c18-fields")
+    path = os.path.join(d, "families.ndjson")
+    n = 0
+    with open(path, "w") as f:
+        for body in r.raw_cases():
+            f.write(body + "\n")
+            n += 1
+    if n < 1000:
+        raise vlib.ToolError("Fields.tla printed too few families")
+    p = vlib.run_bin("fieldcheck", [], stdin_path=path, timeout=3600)
+    if p.returncode != 0:
+        raise vlib.ToolError("fieldcheck crashed: " + p.stderr.decode()[-2000:])
+    recs = vlib.json_lines(p.stdout)
+    for rec in recs:
+        if rec["kind"] == "mismatch":
+            out.report(rec["features"], rec["detail"])
+    s = [x for x in recs if x["kind"] == "summary"][0]
+    out.cov["traces_validated_against_impl"] += s["families"]
+    out.cov["evaluations"] += s["families"]
 
 
 def run(out, tier, seed):
     scope_common.run_gen_check(out, tier, seed, "C18", [])
+    run_fields(out)
     out.cov["exhaustive"] = True
     out.cov["rule"] = ("same programs as C05 (BFS b1 + b1h over all import headers, simulation); at every reference token (identifier being typed, cursor at its end) the offered value "
                        "names must equal the specification's visible set at that point; distinct_nontrivial = programs with shadowing")
@@ -18,4 +50,11 @@ def run(out, tier, seed):
 
 
 def replay(out, path):
+    d = json.load(open(path))
+    if "vs" in d["detail"].get("case", {}):
+        p = vlib.run_bin("fieldcheck", [], stdin_data=json.dumps(d["detail"]["case"]) + "\n")
+        for rec in vlib.json_lines(p.stdout):
+            if rec["kind"] == "mismatch":
+                out.report(rec["features"], rec["detail"])
+        return
     scope_common.replay_case(out, path, "C18")
